@@ -42,7 +42,7 @@ def parse_bool(value: Any) -> Optional[bool]:
 
 def _parse_log_level(value: Any) -> Optional[str]:
   """Decoder for the logging level, which is specified by name"""
-  if value is None or isinstance(value, str):
+  if value is None or value in ("INFO", "WARN", "ERROR"):
     return value
 
   raise ValueError(f"Invalid log_level '{value}'. Expect: \"INFO\", \"WARN\" or \"ERROR\".")
